@@ -3,6 +3,7 @@ import os, re
 from lib import Case, hx, doc_case, unhx
 import xmlcanon
 
+DOC_MODEL = True     # every generated document also runs through the composed Coq model of the whole transform
 RULE = ('generated nestings of g / reuse / loop / for / if with <var> assignments (literal, copy, parallel swap), attribute locals on g and '
         'reuse, and probe elements <text text="[$a|${b}|$c]"> reading defined and undefined variables; a forward reference to an element at the '
         'end of the document is injected at a random place so that the enclosing top-level element is re-evaluated by the retry loop; the '
